@@ -3,6 +3,8 @@
 A *case* is a dict
   docs   : [tree, …]           tree = ('R', [kids]); kid = ('E', name, [(aname, aval)…], [kids], nsdecl) |
                                ('T', text) | ('C', text) | ('P', target, data);   docs[0] = main source
+  rtf    : [k, …]              documents (k >= 1) that are result tree fragments (xsl:variable + xalan:nodeset) instead of
+                               document() loads
   sheets : [(sid, parent|None, kind)]   sid 0 = root module; kind 'import' | 'include'
   decls  : [(sid, name, pattern, use)]  name = 'k' or '{uri}k'; pattern / use = XPath texts of the fragment
                                         understood by lean/XalanModel/C15/Concrete.lean
@@ -123,6 +125,34 @@ def doc_xml(t):
     return "<?xml version=\"1.0\"?>" + "".join(out)
 
 
+def doc_literal(t):
+    """the tree as the content of an xsl:variable (a result tree fragment)"""
+    out = []
+
+    def go(n):
+        if n[0] == "R":
+            for k in n[1]:
+                go(k)
+        elif n[0] == "E":
+            out.append("<" + n[1])
+            if len(n) > 4 and n[4]:
+                out.append(' xmlns:zz="urn:zz"')
+            for a, v in n[2]:
+                out.append(' %s="%s"' % (a, v))
+            out.append(">")
+            for k in n[3]:
+                go(k)
+            out.append("</%s>" % n[1])
+        elif n[0] == "T":
+            out.append("<xsl:text>%s</xsl:text>" % n[1])
+        elif n[0] == "C":
+            out.append("<xsl:comment>%s</xsl:comment>" % n[1])
+        elif n[0] == "P":
+            out.append('<xsl:processing-instruction name="%s">%s</xsl:processing-instruction>' % (n[1], n[2]))
+    go(t)
+    return "".join(out)
+
+
 def doc_nodes(t):
     """document order list of (kind, name, value, parent index) — python mirror used for statistics / arg sizes"""
     res = []
@@ -158,6 +188,8 @@ def doc_nodes(t):
 
 # ------------------------------------------------------------------ patterns and use expressions
 def gen_pred(r):
+    if r.chance(1, 3):      # positional predicate (position among the siblings passing the node test)
+        return r.choice(["[1]", "[2]", "[last()]", "[1]", "[3]"])
     k = r.below(4)
     if k == 0:
         return "[@%s]" % r.choice(ATTRS)
@@ -181,7 +213,9 @@ def gen_last_step(r):
     if k == "e":
         return gen_elem_step(r)
     if k == "@":
-        return "@" + r.choice(ATTRS)
+        k = "@" + r.choice(ATTRS)
+    if r.chance(1, 8):      # positional predicate on an attribute / text() / node() / comment() / pi step
+        k += r.choice(["[1]", "[2]", "[last()]"])
     return k
 
 
@@ -271,12 +305,13 @@ def gen_case(r, cid, big=False):
         else:
             c["kind"] = "ns"; c["argdoc"] = r.below(ndocs)
             c["pat"] = r.choice(["*", "@*", "@x", "@y", "b", "a", "text()", "a/@x", "c", "d", "*[@x]", "b|@x", "comment()",
-                                 "a[not(@x)]", "zzz", "node()", "a|b|c"])
+                                 "a[not(@x)]", "zzz", "node()", "a|b|c", "*[1]", "b[last()]", "*[@x][1]"])
         calls.append(c)
     if r.chance(1, 3) and calls:   # repeat an earlier call (cache hit on a built table)
         calls.append(dict(r.choice(calls)))
     calls = r.shuffle(calls)
-    case = {"id": cid, "docs": docs, "sheets": sheets, "decls": decls, "calls": calls}
+    rtf = [k for k in range(1, ndocs) if r.chance(1, 3)]
+    case = {"id": cid, "docs": docs, "sheets": sheets, "decls": decls, "calls": calls, "rtf": rtf}
     if r.chance(1, 12):
         # error scenario: a name no module declares (or no declaration at all)
         if r.chance(1, 4):
@@ -313,7 +348,7 @@ def pattern_as_nodeset(pat, base=""):
     return "|".join(parts)
 
 
-def brute(decls, name, rhs):
+def brute(decls, name, rhs, base=""):
     """the defining expression of key(name, rhs) for a context node in the current document, as a pair
     (all alternatives that cannot select the document node, the alternatives `/`): Xalan's union orders a document
     node after every other node (C12), so the root is kept out of every `|`"""
@@ -325,9 +360,9 @@ def brute(decls, name, rhs):
         paths = pat.split("|")
         rest = "|".join(p for p in paths if p != "/")
         if rest:
-            alts.append("(%s)[%s]" % (pattern_as_nodeset(rest), test))
+            alts.append("(%s)[%s]" % (pattern_as_nodeset(rest, base), test))
         if "/" in paths:
-            roots.append("(/)[%s]" % test)
+            roots.append("(%s)[%s]" % (base or "/", test))
     empty = "/*[false()]"
     return ("|".join(alts) or empty, "|".join(roots) or empty)
 
@@ -338,6 +373,8 @@ def module_file(sid):
 
 def render_sheet(case, sid):
     nsd = "".join(' xmlns:%s="%s"' % (p, u) for u, ps in sorted(NSMAP.items()) for p in ps)
+    nsd += ' xmlns:x="http://xml.apache.org/xalan"'
+    rtf = case.get("rtf", [])
     out = ['<?xml version="1.0"?><xsl:stylesheet version="1.0" xmlns:xsl="%s"%s>' % (XSLNS, nsd)]
     for (s, par, kind) in case["sheets"]:
         if par == sid and kind == "import":
@@ -357,7 +394,11 @@ def render_sheet(case, sid):
         nd = len(case["docs"])
         out.append('<xsl:variable name="D0" select="/"/>')
         for k in range(1, nd):
-            out.append('<xsl:variable name="D%d" select="document(\'d%d.xml\')"/>' % (k, k))
+            if k in rtf:
+                out.append('<xsl:variable name="F%d">%s</xsl:variable><xsl:variable name="D%d" select="x:nodeset($F%d)"/>'
+                           % (k, doc_literal(case["docs"][k]), k, k))
+            else:
+                out.append('<xsl:variable name="D%d" select="document(\'d%d.xml\')"/>' % (k, k))
         out.append('<xsl:template match="/">')
         gid = '<xsl:value-of select="generate-id()"/><xsl:text> </xsl:text>'
         for k in range(nd):
@@ -373,7 +414,7 @@ def render_sheet(case, sid):
             else:
                 rhs = "$A"
                 pre = '<xsl:variable name="A" select="%s"/>' % pattern_as_nodeset(c["pat"], "$D%d" % c["argdoc"])
-            bmain, broot = brute(case["decls"], c["name"], rhs)
+            bmain, broot = brute(case["decls"], c["name"], rhs, "$D%d" % c["doc"])
             out.append('<xsl:for-each select="%s">%s<xsl:variable name="K" select="key(\'%s\',%s)"/>'
                        '<xsl:variable name="B" select="%s"/><xsl:variable name="R" select="%s"/>'
                        '<xsl:text>Q %d </xsl:text><xsl:value-of select="count($K)"/><xsl:text> </xsl:text>'
@@ -409,7 +450,8 @@ def request_lines(case):
         else:
             ls.append("call %d %s ns %d %s" % (c["doc"], c["name"], c["argdoc"], c["pat"]))
     for k, d in enumerate(case["docs"]):
-        ls.append("file %s %s" % ("main.xml" if k == 0 else "d%d.xml" % k, hexs(doc_xml(d))))
+        if k not in case.get("rtf", []):
+            ls.append("file %s %s" % ("main.xml" if k == 0 else "d%d.xml" % k, hexs(doc_xml(d))))
     for (sid, _, _) in case["sheets"]:
         ls.append("file %s %s" % (module_file(sid), hexs(render_sheet(case, sid))))
     ls.append("run main.xsl main.xml")
